@@ -1,0 +1,19 @@
+//go:build verif
+
+package discovery
+
+// Thin exported aliases of unexported pure functions, for the verification
+// harness under /verif. Compiled only with -tags verif.
+
+func VerifEncodeTagAndMembershipList(mt uint8, tg string, peers []uint16) []byte {
+	return encodeTagAndMembershipList(msgType(mt), tag(tg), peers)
+}
+
+func VerifDecodeTagAndMembershipList(msg []byte) (uint8, string, []uint16, error) {
+	t, tg, peers, err := decodeTagAndMembershipList(msg)
+	return uint8(t), string(tg), peers, err
+}
+
+func VerifPRF(key []byte, x uint16) []byte {
+	return makePRF(key)(x)
+}
